@@ -246,7 +246,8 @@ def command_table(program, rule="T"):
     for c in program.subclasses("Command"):
         adef, owner = class_value(program, c, "args_definition")
         entry = {"class": c.name, "module": c.module.name, "lineno": c.node.lineno,
-                 "abstract": owner is None, "args_definition": None}
+                 "abstract": owner is None or owner is base, "args_definition": None}
+        entry["inherits_base_definition"] = owner is base and c is not base
         if owner is not None:
             if adef is TOP:
                 raise AnalysisError(rule, "args_definition of %s is not statically evaluable" % c.name)
